@@ -60,10 +60,13 @@ class Stats:
         self.queries = 0
         self.solver_s = 0.0
         self.by_backend = {}
+        self.max_query_s = 0.0
+        self.max_prove_s = 0.0
 
     def add(self, backend, dt):
         self.queries += 1
         self.solver_s += dt
+        self.max_query_s = max(self.max_query_s, dt)
         self.by_backend[backend] = self.by_backend.get(backend, 0) + 1
 
 
@@ -216,6 +219,7 @@ class PathCtx:
         smt2 = self.solver.to_smt2() if r == z3.unknown else None
         self.solver.pop()
         self.stats.add('z3', time.time() - t0)
+        self.stats.max_prove_s = max(self.stats.max_prove_s, time.time() - t0)
         if r == z3.unsat:
             self._add(t)
             return ('proved', 'z3', None)
